@@ -363,6 +363,9 @@ def _build_scaled(dim, n, r, specials, small, cfg):
             # a group of the neighbouring precedence level, or a drawn special
             items[p] = (("bool" if other[fam[0]] in ("and", "or") else "cmp" if other[fam[0]] in ("eq", "lt") else "bin"),
                         other[fam[0]], items[p], small[0]) if r.random() < 0.6 else sp
+        if r.random() < 0.4:
+            items[0] = (("bool" if other[fam[0]] in ("and", "or") else "cmp" if other[fam[0]] in ("eq", "lt") else "bin"),
+                        other[fam[0]], items[0], small[1])
         shape = r.randrange(4)
         if shape < 2:
             t = items[0]
